@@ -243,6 +243,25 @@ fn seq_family(prop: &str) -> i32 {
         }
     }
     run.add_all(viol);
+    // C02 and C18 also quantify over what a concurrent flush can do: explore every schedule of
+    // flush_meta / shrink_caches racing another operation and judge the quiescent end state
+    let mut sched_json = json!(null);
+    if prop == "C02" || prop == "C18" {
+        let sc = flush_scenarios(thorough);
+        let (b, per, secs) = if thorough { (3, 200_000, 600) } else { (2, 4_000, 25) };
+        match sched_explore(&run, &[prop], &sc, b, per, secs) {
+            Ok(sum) => {
+                states += sum.steps;
+                trans += sum.steps;
+                sched_json = json!({"scenarios": sum.total, "executions": sum.execs, "executor_steps": sum.steps, "scenarios_with_several_outcomes": sum.multi_outcome,
+                    "min_deviation_bound_completed": sum.min_bound, "deviation_bound_target": b, "scenarios_exhausted": sum.exhausted_n, "samples": sum.samples});
+            }
+            Err(e) => {
+                eprintln!("machinery error: {}", e);
+                return 2;
+            }
+        }
+    }
     let cov = json!({
         "states": states,
         "transitions": trans,
@@ -250,6 +269,7 @@ fn seq_family(prop: &str) -> i32 {
         "samples": samples,
         "evaluations": trans,
         "distinct_nontrivial": outcomes,
+        "concurrent_part": sched_json,
         "rule": "explicit-state BFS over operation histories on the real code (every transition = one replay of the history on a fresh simulated host); states merged by digest of files + in-RAM metadata + reference disk; distinct_nontrivial = number of distinct (operation kind, result, data returned) outcomes observed",
         "exhaustive": all_complete,
         "scenarios": scen,
@@ -399,41 +419,31 @@ pub fn sched_scenarios(g: &Geo, setups_filter: &[&str], caches: &[&str], pairs: 
     out
 }
 
-pub fn sched_family(prop: &str) -> i32 {
-    let run = Run::new(prop, "model_checking");
-    let thorough = run.thorough();
-    let g = images::G10;
-    let (bound, per_scn_execs, secs): (usize, u64, u64) = if thorough { (3, 400_000, 1200) } else { (2, 6_000, 40) };
-    let setups: Vec<&str> = if thorough {
-        vec!["empty", "Xdirty", "XYflushed", "Xdiscarded", "backing", "compressed"]
-    } else {
-        vec!["empty", "Xdirty", "XYflushed"]
-    };
-    let mut scenarios = sched_scenarios(&g, &setups, &["small", "ample"], true);
-    if thorough {
-        scenarios.extend(sched_scenarios(&images::G9, &["empty", "XYflushed"], &["small"], true));
-        scenarios.extend(sched_scenarios(&images::G12, &["empty", "Xdirty"], &["small"], true));
-    }
-    let want: Vec<&str> = match prop {
-        "C06" => vec!["C06", "C07"],
-        "C07" => vec!["C07", "C06"],
-        "C18" => vec!["C18"],
-        "C02" => vec!["C02"],
-        _ => vec![prop],
-    };
+pub struct SchedSummary {
+    pub execs: u64,
+    pub steps: u64,
+    pub multi_outcome: u64,
+    pub min_bound: i64,
+    pub exhausted_n: usize,
+    pub total: usize,
+    pub samples: Vec<String>,
+    pub scen_json: Vec<Value>,
+}
+
+/// explore a list of scenarios (in parallel, one scenario per worker) and judge every execution
+pub fn sched_explore(run: &Run, want: &[&str], scenarios: &[SchedScenario], bound: usize, per_scn_execs: u64, secs: u64) -> Result<SchedSummary, String> {
     let deadline = deadline_in(secs);
-    let results: Vec<(String, Result<crate::sched::ExploreStats, String>, Vec<Violation>, u64)> = scenarios
+    let results: Vec<(String, Result<crate::sched::ExploreStats, String>, Vec<Violation>)> = scenarios
         .par_iter()
         .map(|sc| {
             let mut viols: Vec<Violation> = vec![];
-            let mut nontrivial = 0u64;
             let mut last: Result<crate::sched::ExploreStats, String> = Err("not run".into());
             // iterate the deviation bound; each round re-explores from scratch (cheap) so the
             // first counterexample has the fewest deviations
             let mut total = crate::sched::ExploreStats::default();
             for b in 0..=bound {
                 let r = explore(sc, b, per_scn_execs, deadline, |sc, x| {
-                    let o = lin::judge(sc, x, &want);
+                    let o = lin::judge(sc, x, want);
                     for v in o.violations {
                         if viols.iter().filter(|y| y.class == v.class && y.prop == v.prop).count() < 3 {
                             viols.push(v);
@@ -452,7 +462,6 @@ pub fn sched_family(prop: &str) -> i32 {
                         if !st.capped {
                             total.bound_completed = b as i64;
                         }
-                        nontrivial = total.distinct_outcomes;
                         let stop = st.exhausted || st.capped;
                         last = Ok(total.clone());
                         if stop {
@@ -465,58 +474,89 @@ pub fn sched_family(prop: &str) -> i32 {
                     }
                 }
             }
-            (sc.describe(), last, viols, nontrivial)
+            (sc.describe(), last, viols)
         })
         .collect();
-    let mut execs = 0u64;
-    let mut steps = 0u64;
-    let mut scen_json = vec![];
-    let mut machinery_err = None;
-    let mut multi_outcome = 0u64;
-    let mut min_bound = i64::MAX;
-    let mut exhausted_n = 0;
-    let mut samples = vec![];
-    for (desc, st, viols, _nt) in results.iter() {
+    let mut sum = SchedSummary { execs: 0, steps: 0, multi_outcome: 0, min_bound: i64::MAX, exhausted_n: 0, total: scenarios.len(), samples: vec![], scen_json: vec![] };
+    for (desc, st, viols) in results.iter() {
         match st {
             Ok(st) => {
-                execs += st.executions;
-                steps += st.steps;
+                sum.execs += st.executions;
+                sum.steps += st.steps;
                 if st.distinct_outcomes > 1 {
-                    multi_outcome += 1;
+                    sum.multi_outcome += 1;
                 }
-                min_bound = min_bound.min(st.bound_completed);
+                sum.min_bound = sum.min_bound.min(st.bound_completed);
                 if st.exhausted {
-                    exhausted_n += 1;
+                    sum.exhausted_n += 1;
                 }
-                scen_json.push(json!({"scenario": desc, "executions": st.executions, "max_choice_points": st.choice_points_max,
+                sum.scen_json.push(json!({"scenario": desc, "executions": st.executions, "max_choice_points": st.choice_points_max,
                     "deviation_bound_completed": st.bound_completed, "schedule_space_exhausted": st.exhausted, "capped": st.capped,
                     "distinct_outcomes": st.distinct_outcomes, "nontrivial": st.distinct_outcomes > 1}));
-                if samples.len() < 8 {
-                    samples.push(desc.clone());
+                if sum.samples.len() < 8 {
+                    sum.samples.push(desc.clone());
                 }
             }
-            Err(e) => machinery_err = Some(format!("{}: {}", desc, e)),
+            Err(e) => return Err(format!("{}: {}", desc, e)),
         }
         run.add_all(viols.clone());
     }
-    if let Some(e) = machinery_err {
-        eprintln!("machinery error: {}", e);
-        return 2;
+    if sum.min_bound == i64::MAX {
+        sum.min_bound = -1;
     }
+    Ok(sum)
+}
+
+/// scenarios in which a flush_meta / shrink_caches runs concurrently with something else
+pub fn flush_scenarios(thorough: bool) -> Vec<SchedScenario> {
+    let g = images::G10;
+    let setups: Vec<&str> = if thorough { vec!["empty", "Xdirty", "XYflushed", "Xdiscarded"] } else { vec!["Xdirty", "XYflushed"] };
+    let mut v = sched_scenarios(&g, &setups, &["small", "ample"], true);
+    v.retain(|s| s.tasks.iter().any(|t| t.iter().any(|o| matches!(o, Op::Flush | Op::Shrink))));
+    v
+}
+
+pub fn sched_family(prop: &str) -> i32 {
+    let run = Run::new(prop, "model_checking");
+    let thorough = run.thorough();
+    let g = images::G10;
+    let (bound, per_scn_execs, secs): (usize, u64, u64) = if thorough { (3, 400_000, 1200) } else { (2, 6_000, 40) };
+    let setups: Vec<&str> = if thorough {
+        vec!["empty", "Xdirty", "XYflushed", "Xdiscarded", "backing", "compressed"]
+    } else {
+        vec!["empty", "Xdirty", "XYflushed"]
+    };
+    let mut scenarios = sched_scenarios(&g, &setups, &["small", "ample"], true);
+    if thorough {
+        scenarios.extend(sched_scenarios(&images::G9, &["empty", "XYflushed"], &["small"], true));
+        scenarios.extend(sched_scenarios(&images::G12, &["empty", "Xdirty"], &["small"], true));
+    }
+    let want: Vec<&str> = match prop {
+        "C06" => vec!["C06", "C07"],
+        "C07" => vec!["C07", "C06"],
+        _ => vec![prop],
+    };
+    let sum = match sched_explore(&run, &want, &scenarios, bound, per_scn_execs, secs) {
+        Ok(s) => s,
+        Err(e) => {
+            eprintln!("machinery error: {}", e);
+            return 2;
+        }
+    };
     let cov = json!({
-        "states": steps,
-        "transitions": steps,
-        "traces_validated_against_impl": execs,
-        "evaluations": execs,
-        "distinct_nontrivial": multi_outcome,
+        "states": sum.steps,
+        "transitions": sum.steps,
+        "traces_validated_against_impl": sum.execs,
+        "evaluations": sum.execs,
+        "distinct_nontrivial": sum.multi_outcome,
         "rule": "stateless exploration of every schedule (which ready task is polled / which outstanding backend request completes) within the deviation bound, per scenario of 2-3 concurrent API calls on the real code under a deterministic executor; states/transitions = executor steps taken; distinct_nontrivial = scenarios in which different schedules produced more than one distinct outcome (results + final content)",
-        "samples": samples,
-        "scenarios_total": scenarios.len(),
-        "scenarios_exhausted": exhausted_n,
-        "min_deviation_bound_completed": if min_bound == i64::MAX { -1 } else { min_bound },
+        "samples": sum.samples,
+        "scenarios_total": sum.total,
+        "scenarios_exhausted": sum.exhausted_n,
+        "min_deviation_bound_completed": sum.min_bound,
         "deviation_bound_target": bound,
         "exhaustive": false,
-        "scenarios": scen_json,
+        "scenarios": sum.scen_json,
     });
     run.finish(cov, vec![
         "a task poll is atomic (single-threaded async code; std locks never held across an await)".into(),
@@ -524,7 +564,6 @@ pub fn sched_family(prop: &str) -> i32 {
         "SimIo applies a request's effect atomically at completion".into(),
     ])
 }
-
 
 // =====================================================================
 // CRASH family: C04 C05
